@@ -54,6 +54,9 @@ CLAIMED = {
             "Static decision of the bookkeeping clause on which Extreme, Delay, Differentiate (and the other auto-update users: ExponentialSpringForce, CablePath, CableSpan, ContactTracker) depend (DESIGN section 3, C23): "
             "a value written into an auto-update variable's update slot is marked realized on all paths with the same index, the 'already realized' test uses that index, the Acceleration-stage hook reaches the update and the getter reads a slot that was written. "
             "The values of the measures (formulas, integrals, extremes, delays) are numerical and NOT decided."),
+    "C24": ("CLONE (float~double and complex<float>~complex<double> wrapper specialisations issue identical LAPACK call traces modulo prefix/type) and REACHDEF (lwork and workspace derived from the -1 query to the same routine)",
+            "Static decision of the clause the property names as the risk, 'LAPACK argument conversion and workspace sizing is separate code per type' (DESIGN section 3, C24): per wrapper family the specialisations agree argument-for-argument, "
+            "and every real call's lwork/workspace come from the preceding workspace query. Everything in Factor*.cpp / Eigen.cpp (rank logic, residuals, orderings) is numerical and NOT decided."),
 }
 NA = {
  "C01": "numerical identity between O(n) recursions; no clause is visible in the shape of the code",
